@@ -96,6 +96,11 @@ pub struct GatherPlan {
     /// the two may be admitted, and whatever gather() shows afterwards must be of one type
     #[serde(default)]
     pub race_register: bool,
+    /// history fault: a twin of one registered metric (same name and help, another constant-label
+    /// value) is registered and unregistered again, then a third collector under that name with a
+    /// DIFFERENT help text is registered - it must be refused, the name's help was fixed by the others
+    #[serde(default)]
+    pub help_fault: bool,
 }
 
 const BOUNDS: [f64; 2] = [4.0, 64.0];
@@ -218,7 +223,7 @@ pub fn gen_plan(seed: u64, mixed_kinds: bool) -> GatherPlan {
             prelude.push(t);
         }
     }
-    GatherPlan { env, prefix, common, metrics, orders, hash_seeds, concurrent_gather: focus || r.chance(30), prelude, custom: vec![], poison: r.chance(15), custom_type_unset: false, stable, custom_extra_values: false, bundle_fault: r.chance(15), race_register: r.chance(15) }
+    GatherPlan { env, prefix, common, metrics, orders, hash_seeds, concurrent_gather: focus || r.chance(30), prelude, custom: vec![], poison: r.chance(15), custom_type_unset: false, stable, custom_extra_values: false, bundle_fault: r.chance(15), race_register: r.chance(15), help_fault: r.chance(15) }
 }
 
 fn hist_model(v: u32) -> compat::PHist {
@@ -627,6 +632,35 @@ pub fn run_replicas(plan: &GatherPlan, mode: Mode) -> (crate::engine::RunResult,
                     }
                     if reg.register(Box::new(b.clone())).is_ok() {
                         errors.push(format!("a two-descriptor collector repeating the registered descriptor of {:?} was admitted after its refused unregister", m0.name));
+                    }
+                }
+            }
+            if plan.help_fault {
+                if let Some(m0) = plan.metrics.iter().find(|m| !m.kind.is_vec() && m.kind != MK::Pulling && m.kind != MK::Histogram && !m.consts.is_empty()) {
+                    let with_value = |v: &str, help: &str| {
+                        let mut consts = HashMap::new();
+                        for (i, (k, val)) in m0.consts.iter().enumerate() {
+                            consts.insert(k.clone(), if i == 0 { v.to_string() } else { val.clone() });
+                        }
+                        Opts::new(m0.name.clone(), help.to_string()).const_labels(consts)
+                    };
+                    if let Ok(twin) = IntGauge::with_opts(with_value("zz_twin", &m0.help)) {
+                        // (a twin of another kind would be the recorded C14 finding; keep the kind family)
+                        let is_counter = m0.kind.ptype() == PType::Counter;
+                        let twin_c = IntCounter::with_opts(with_value("zz_twin", &m0.help)).ok();
+                        let reg_twin = |r: &Registry| if is_counter { twin_c.clone().map(|c| r.register(Box::new(c))) } else { Some(r.register(Box::new(twin.clone()))) };
+                        let unreg_twin = |r: &Registry| if is_counter { twin_c.clone().map(|c| r.unregister(Box::new(c))) } else { Some(r.unregister(Box::new(twin.clone()))) };
+                        if let Some(Ok(())) = reg_twin(&reg) {
+                            let _ = unreg_twin(&reg);
+                            let admitted = if is_counter {
+                                IntCounter::with_opts(with_value("zz_third", "another help text")).map(|c| { c.inc_by(7_700_321); reg.register(Box::new(c)).is_ok() }).unwrap_or(false)
+                            } else {
+                                IntGauge::with_opts(with_value("zz_third", "another help text")).map(|g| { g.set(7_700_321); reg.register(Box::new(g)).is_ok() }).unwrap_or(false)
+                            };
+                            if admitted {
+                                errors.push(format!("a collector with another help text was admitted under the name {:?} after a twin had been unregistered", m0.name));
+                            }
+                        }
                     }
                 }
             }
